@@ -15,7 +15,26 @@ import (
 // (first 8 bytes zero, bytes 10..24 zero, last byte 0xff, longer than 25 bytes), otherwise the
 // last byte masked with the smallest all-ones mask covering n-1, falling back to one bit less.
 func refShard(n uint32, a []byte) uint32 {
-	if len(a) > 25 && a[len(a)-1] == 0xff {
+	need := 1
+	switch {
+	case n > 16777216:
+		need = 4
+	case n > 65536:
+		need = 3
+	case n > 256:
+		need = 2
+	}
+	if need > len(a) {
+		need = len(a)
+	}
+	ident := a[len(a)-need:]
+	identFF := len(ident) > 0
+	for _, b := range ident {
+		if b != 0xff {
+			identFF = false
+		}
+	}
+	if len(a) > 25 && identFF {
 		isSC := true
 		allZero := true
 		for _, b := range a {
@@ -44,7 +63,10 @@ func refShard(n uint32, a []byte) uint32 {
 	if len(a) == 0 {
 		return 0
 	}
-	last := uint32(a[len(a)-1])
+	last := uint32(0)
+	for _, b := range ident {
+		last = last<<8 + uint32(b)
+	}
 	bits := uint(0)
 	for (uint32(1) << bits) < n {
 		bits++
@@ -120,13 +142,19 @@ func minInt(a, b int) int {
 
 func main() {
 	r := vk.Start("C11")
-	r.Rule("exhaustive over shard counts 1..256 x 256 last-byte values x 5 address classes (user, SC, system-SC shape, near-system-SC, zero) x lengths {0,1,2,10,25,26,31,32,33,64}; a case is non-trivial when the address is non-empty; distinct = distinct (shards, class, length, result) tuples. Topic ids: all ordered pairs over {0..n-1 sample, META, ALL}.")
-	r.Assume("reference rule re-implemented in the harness from the documented mask rule", "shard counts above 256 (core.MaxNumShards) are not part of the supported range")
-	lengths := []int{0, 1, 2, 10, 25, 26, 31, 32, 33, 64}
+	r.Rule("exhaustive over shard counts 1..256 (plus the supplementary counts 257..16777217 that exercise the multi-byte identifier path) x 256 last-byte values x 5 address classes (user, SC, system-SC shape, near-system-SC, zero) x lengths {0,1,2,10,15,16,20,24,25,26,31,32,33,64}, every address allocated with capacity == length; a case is non-trivial when the address is non-empty; distinct = distinct (shards, class, length, result) tuples. Topic ids: all ordered pairs over {0..n-1 sample, META, ALL}.")
+	r.Assume("reference rule re-implemented in the harness from the documented mask rule", "shard counts above 256 (core.MaxNumShards) are beyond the property's quantifier; they are still monitored because NewMultiShardCoordinator accepts them")
+	lengths := []int{0, 1, 2, 10, 15, 16, 20, 24, 25, 26, 31, 32, 33, 64}
 	extra := r.N(1, 8)
 
-	r.Parallel(256, func(c *vk.Case) {
+	// shard counts above core.MaxNumShards are outside the property's quantifier but the constructor accepts them
+	// and the assignment code has a multi-byte identifier path; they are monitored as a supplementary phase
+	bigNs := []uint32{257, 300, 512, 1000, 4096, 65535, 65536, 65537, 100000, 16777216, 16777217}
+	r.Parallel(256+len(bigNs), func(c *vk.Case) {
 		n := uint32(c.Idx + 1)
+		if c.Idx >= 256 {
+			n = bigNs[c.Idx-256]
+		}
 		selfIDs := []uint32{0, n - 1, core.MetachainShardId}
 		var coords []sharding.Coordinator
 		for _, s := range selfIDs {
@@ -144,6 +172,12 @@ func main() {
 				for class := 0; class < 5; class++ {
 					for last := 0; last < 256; last++ {
 						a := mkAddr(class, L, byte(last), c.Rng)
+						if n > 256 && L >= 4 {
+							// multi-byte identifiers: drive the bytes before the last one through the interesting values
+							for k, v := range [][]byte{{0xff, 0xff, 0xff}, {0x00, 0x00, 0xff}, {0x00, 0x00, 0x01}, nil}[(last+rep)%4] {
+								a[L-4+k] = v
+							}
+						}
 						want := refShard(n, a)
 						got := coords[0].ComputeId(a)
 						r.Eval(1)
@@ -180,6 +214,9 @@ func main() {
 								continue
 							}
 							b := mkAddr(oc, L, byte(last), c.Rng)
+						if n > 256 && L >= 4 {
+							copy(b[L-4:L-1], a[L-4:L-1])
+						}
 							idB := coords[0].ComputeId(b)
 							r.Eval(1)
 							if same := coords[0].SameShard(a, b); same != (idB == got) && !bytesEqual(a, b) {
